@@ -1,7 +1,7 @@
 SPECIFICATION Spec
 CONSTANTS
   Configs <- GenQuick
-  Fix = FALSE
+  Fix = TRUE
   EmitGen = TRUE
   Seed = 1
 INVARIANTS Emit
